@@ -194,6 +194,10 @@ def gen_case(rng):
             expr = ['binc', rng.choice(['or', 'add']), gen_leaf(rng, bounds), expr]
     else:
         expr = gen_expr(rng, rng.choice([0, 1, 1, 2, 2, 3]), bounds)
+    if rng.random() < 0.05:
+        # division by the NUMBER zero is refused when the expression is built - whatever the dividend looks like (a
+        # combinator of combinators, with or without a constant operand): RuntimeError, not another exception
+        expr = ['binn', 'div', expr, rng.choice([['i', 0], ['f', (0.0).hex()], ['f', (-0.0).hex()]])]
     evals = [gen_time(rng, bounds) for _ in range(rng.randint(4, 9))]
     units = [gen_time(rng, bounds) for _ in range(rng.randint(2, 4))]
     search = []
